@@ -119,7 +119,14 @@ def run(ctx):
                       "how": "VERIF_SEED=%d harness c19 %s %d <dir>  (then: c19 check <dir> v3|cur)" % (ctx.seed, direction, n)}
             if kv["contents"] != "same":
                 bad_total += 1
-                ctx.violation("c19-%s-contents-%s" % (direction, kv["contents"].lower()),
+                key = "c19-%s-contents-%s" % (direction, kv["contents"].lower())
+                # one specific, recorded panic: the working tree's debug-build-only post-repair check
+                # (check_repaired_allocated_pages_table) asserts that every page named by DATA_ALLOCATED is
+                # allocated; files written by 3.0.0 after a persistent savepoint was deleted / restored name freed
+                # pages there (a 3.0.0 defect fixed since, see CHANGELOG). Any other panic keeps the general key.
+                if direction == "rev" and "mem.is_allocated(pages.value().get(i))" in line:
+                    key += ":debug-assert-data-allocated-names-free-page"
+                ctx.violation(key,
                               "%s could not read image %s (%s) written by the other release with identical contents: %s" % (reader, img, ev, line[:300]), replay)
             elif kv["integrity"] != "Ok(true)":
                 # control measured by the harness authors: 3.0.0 reports Ok(false) on images taken right after
